@@ -13,20 +13,20 @@ LEVEL = {
  "C03": ("model_checking", "the digest decision (Allowed) is stated over the abstract state of the four recorded digests; MC shows a step-machine verifier refines it on the complete table; TLC generates the table, the harness materialises every row on a hand-encoded package and re-derives the state of bit-flipped real packages with its own decoder and hashing; Trace_C03 judges every outcome.", "3.C03"),
  "C10": ("model_checking", "SignHistory state machine model-checked for all histories up to length 5; TLC generates every history with expected observations; the harness walks them as a prefix tree with the four real keys and Trace_C10 replays every observed step through the state machine.", "3.C10"),
  "C04": ("model_checking", "the header reader is an explicit state machine (Parser) whose failure transitions are model-checked for reachability and in-bounds reads; TLC generates boundary-value products per transition (Gen_Hostile) which, with every truncation / single-byte mutation of real packages, structure-aware mutants and hostile cpio payloads, are run through every read-side operation in a child process under RLIMIT_AS, alarm() and a counting allocator; the trace specification has no action for panic / abort / timeout and bounds the allocation peak.", "3.C04"),
- "C05": ("model_checking", "Trace_Pkg decodes each well-formed header independently from its raw bytes (HeaderFormat/PackageFile: accessor table) and compares every accessor and Header::get_entry_data_as_* result; inputs are assets, built packages and TLC-enumerated typed headers (every accessor tag x data type x count, triples with missing / wrongly typed members, directory indexes in and out of range).", "3.C05"),
+ "C05": ("model_checking", "Trace_Pkg decodes each well-formed header independently from its raw bytes (HeaderFormat/PackageFile: accessor table) and compares every accessor and Header::get_entry_data_as_* result, and demands that a package valid by rpm's loading rules (dribble entries allowed) is readable at all; the decoder is model-checked against the specification's encoder (MC_HeaderFormat: Decode(Encode(h)) = h); inputs are assets, built packages and TLC-enumerated typed headers (every accessor tag x data type x count, triples with missing / wrongly typed members, directory indexes in and out of range).", "3.C05"),
  "C06": ("model_checking", "the read-back relation (Builder: per supplied field, file list ordered by path, flag words, clamped mtimes, order-preserving dependency subsequence) is stated in TLA+ and its algebra model-checked; seeded random configurations over the quantifier's domain are built, written, re-parsed and read through every accessor, and Trace_C06 names every field that does not read back.", "3.C06"),
  "C07": ("model_checking", "the cpio archive model (newc + stripped entries, framing, pairing by name / index) is model-checked by encode-then-parse on small archives; TLC enumerates foreign-style packages (every omitted subset, order, size residue, both formats) for Package::files(); assets, built packages for every codec / level family / size family and the large-file format via the hook are iterated; Trace_C07 checks each yielded item against the harness's scan of the independently decompressed archive, and on small archives the scan against the specification's own parse.", "3.C07"),
  "C08": ("model_checking", "recorded header / payload / uncompressed-archive digests and every file digest are compared by the trace specifications with the harness's independent recomputation (own range finding checked against the layout the specification derives, own decompression, sha2) on every built, signed and cleared package incl. MiB-range incompressible files for every codec; the hashing writer is run in front of scripted short-accepting sinks and validated by the IoSink trace specification.", "3.C08"),
- "C09": ("model_checking", "rpm's header-loading rules (HdrChk, LeadOk, signature padding) transcribed in TLA+ are evaluated by TLC on the raw bytes of every package the builder / signer emits in the run; the payload archive rules are checked by the cpio model (C07 scenario) on the same packages.", "3.C09"),
- "C11": ("model_checking", "reproducibility is an action property over a history variable (emitted[cfg]); the design-level defect (hash-set iteration order) is a TLC counterexample and its repair passes; the real builder is run 3x in-process and in 3 fresh processes (different hash seeds, TZ, cwd, environment) per configuration and Trace_C11 replays every run, also checking every timestamp against the source date.", "3.C11"),
- "C12": ("model_checking", "a POSIX-like file-system model with symlink resolution; the safe extractor keeps Contained for every package over a hostile alphabet while the naive one is refuted (its counterexamples are the minimal hostile packages); every model package is hand-encoded and extracted by the real code in a scratch jail snapshotted before / after; benign packages must be recreated (model tree for generated ones, configuration for built ones).", "3.C12"),
+ "C09": ("model_checking", "rpm's header-loading rules (HdrChk, LeadOk, signature padding) transcribed in TLA+ - and model-checked against the specification's own encoder: encoder output passes, each of 29 named malformations is refused (MC_HeaderFormat) - are evaluated by TLC on the raw bytes of every package the builder / signer emits in the run; the payload archive rules are checked by the cpio model (C07 scenario) on the same packages.", "3.C09"),
+ "C11": ("model_checking", "reproducibility is an action property over a history variable (emitted[cfg]); the design-level defect (hash-set iteration order) is a TLC counterexample and its repair passes; the real builder is run 3x in-process and in 3 fresh processes (different hash seeds, TZ, cwd, environment) per configuration and Trace_C11 replays every run, also checking every timestamp (header tags, signature packet, archive entry headers) against the source date; input mtimes after the source date are varied between the runs.", "3.C11"),
+ "C12": ("model_checking", "a POSIX-like file-system model with symlink resolution; the safe extractor keeps Contained for every package over a hostile alphabet while the naive one is refuted (its counterexamples are the minimal hostile packages); every model package is hand-encoded (ordinary, with the whole path as base name, and with absolute base names) and extracted by the real code in a scratch jail snapshotted before / after; benign packages must be recreated (model tree for generated ones, configuration for built ones).", "3.C12"),
  "C13": ("model_checking", "RpmVerCmp is rpm's algorithm in small-step and big-step form, model-checked against a second definition (token-key order) with antisymmetry/transitivity; the real Evr/Nevra ordering is recorded on the complete bounded domain plus seeded long strings and validated event by event by TLC.", "3.C13"),
  "C14": ("model_checking", "the sink protocol (Offer / Accept / Interrupted / Zero / Fail / Return) with its safety invariant is model-checked for the write_all design and refuted for the single-write design; the real Package::write / PackageMetadata::write run against scripted sinks with a failure at every offset and every chunking family, selected runs validated call by call by Trace_C14; parsing from chunked sources and truncation at every metadata offset.", "3.C14"),
  "C15": ("model_checking", "MC proves right-splitting unambiguous on real component values in the spec; the real Display/parse/normalised forms are recorded on the same complete bounded tuple domain, the asset NEVRAs, all compression types and seeded arbitrary strings, and validated by Trace_C15.", "3.C15"),
  "C16": ("model_checking", "layout algebra model-checked on a grid covering all residues mod 8 and discharged for all naturals by Apalache (LayoutInd); offsets reported by parsed and in-memory (built, signed, cleared, Header::clear'ed, re-written) packages are validated by Trace_Pkg against the layout derived from the written bytes' own intro fields.", "3.C16"),
  "C17": ("model_checking", "MustErr (destinations without a final file name) is stated in TLA+ and model-checked for closure; every destination over {/ . a b} up to length 6, capability texts, every codec with levels across and beyond its range (child process per case) and seeded metadata strings are run through the real builder and validated by Trace_C17 (no panic action exists in the spec).", "3.C17"),
  "C18": ("model_checking", "mode-word algebra model-checked on all 65 536 words; the real conversions are recorded for all words, all in-range negatives, all constructor arguments and all 2^32 integers (run-length encoded) and validated by Trace_C18.", "3.C18"),
- "C19": ("model_checking", "character-level acceptor transcribed from the statement; the complete domain of <= 4 (5) tokens over the quantifier's 13-token alphabet plus seeded long strings goes through from_str / new / FileOptions::caps and TLC compares each verdict.", "3.C19"),
+ "C19": ("model_checking", "character-level acceptor transcribed from the statement; the complete domain of <= 4 (6 thorough) tokens over the quantifier's 13-token alphabet plus seeded long strings goes through from_str / new / FileOptions::caps and TLC compares each verdict.", "3.C19"),
  "C20": ("model_checking", "digit-vector conversion model-checked against the integer statement on a scaled-down base; real conversions of SystemTime and chrono DateTime (boundary windows, sub-second offsets, extremes, zones, seeded random) validated by Trace_C20 incl. order preservation on consecutive pairs.", "3.C20"),
 }
 NOTE = "trusted base: TLC 1.8.0 and the CommunityModules Json/IOUtils overrides; the harness projection (dumb field rendering) and its hand encoders; sha2/md-5/sha1 and codec crates called directly by the harness; cargo rebuilding /repo through the path dependency. Bounded domains as stated in the evidence `rule`."
